@@ -1,4 +1,5 @@
 import RzilVerif.Model.CSem
+import RzilVerif.Model.LoopTy
 /-
   C side with value-producing side effects (postfix increment and decrement, sub-routine calls, statement-expressions):
   expressions thread the machine state, sub-expressions are evaluated left to right (the theorems and
@@ -204,7 +205,8 @@ def execCH (ms : MacroSem) (subs : CSubEnv) : Nat → CStmt → MState → Excep
           | some e => execCHs ms subs fuel e σ
           | none => .ok σ
     | .for_ v cond step body => do
-        let σ0 := { σ with locals := setLocal σ.locals v (.bv 32 0) }
+        -- the counter starts as 0 in its declared type (`loopVarTy`: ut32 for the undeclared special identifiers)
+        let σ0 := { σ with locals := setLocal σ.locals v (.bv (loopVarTy v cond).width 0) }
         loopCH ms subs fuel v cond step body σ0
     | .jump e => do
         let (v, σ) ← evalCH ms subs fuel σ e
